@@ -14,7 +14,7 @@ K = 1000
 def coq_op(o):
     n = o[0]
     a = [vlib.z(x) for x in o[1:]]
-    table = {"add": "OAdd", "addn": "OAddN", "revert": "ORevert", "save": "OSave", "load": "OLoad",
+    table = {"add": "OAdd", "addn": "OAddN", "revert": "ORevert", "save": "OSave", "load": "OLoad", "reload": "OLoad",
              "lastheight": "OLastHeight", "lasthash": "OLastHash", "contains": "OContains", "height": "OHeight",
              "hash": "OHash", "blockhash": "OBlockHash", "time": "OTime", "header": "OHeaderAt",
              "getheaders": "OGetHeaders", "files": "OFiles"}
@@ -98,13 +98,17 @@ def gen_case(rng, nops, maxtip):
             ops.append(["save"])
             m.saved = len(m.chain)
         elif kind == "load":
-            ops.append(["load"])
+            ops.append(["reload" if rng.chance(1, 2) else "load"])
+            dropped = m.chain[max(m.saved, 1):]
             if m.saved == 0:
                 m.dead += m.chain[1:][-3:]
                 m.chain = [0]
             else:
                 m.dead += m.chain[m.saved:][-3:]
                 m.chain = m.chain[:m.saved]
+            if dropped and rng.chance(2, 3):
+                # a header that was added but never saved is gone after the load: ask for it by hash
+                ops.append([rng.choice(["contains", "height"]), rng.choice(dropped[-3:] + dropped[:1])])
         elif kind == "files":
             ops.append(["files"])
         else:
@@ -178,7 +182,7 @@ def keyfn(rec):
     ops = rec.get("ops", [])
     step = rec.get("step", 0)
     opn = ops[step][0] if step < len(ops) else "?"
-    prev = next((o[0] for o in reversed(ops[:step]) if o[0] in ("revert", "load", "save", "add", "addn")), "init")
+    prev = next((o[0] for o in reversed(ops[:step]) if o[0] in ("revert", "load", "reload", "save", "add", "addn")), "init")
     return "blockrepo:%s-after-%s" % (opn, prev)
 
 
